@@ -205,7 +205,6 @@ def builder_helpers(run, ctx):
         "compile::VMBuilder::add": lambda c: H.pat_match("self.prog.push({i})", c) is not None,
         "compile::VMBuilder::newsave": lambda c: H.pat_match("let {r} = self.n_saves; self.n_saves += 1; {r}", c) is not None,
         "compile::VMBuilder::set_jmp_target": lambda c: H.pat_match("match self.prog[{p}] {Insn::Jmp({n}) => {n} = {t}; _ => {*rest}}", c) is not None,
-        "compile::VMBuilder::set_split_target": lambda c: H.pat_match("match self.prog[{p}] {Insn::Split(_,{y}) if {s} => {y} = {t}; Insn::Split({x},_) => {x} = {t}; _ => {*rest}}", c) is not None,
         "compile::VMBuilder::set_repeat_target": lambda c: H.pat_match("match self.prog[{p}] {Insn::RepeatGr{next:{n},..}|Insn::RepeatNg{next:{n},..}|Insn::RepeatEpsilonGr{next:{n},..}|Insn::RepeatEpsilonNg{next:{n},..} => {n} = {t}; _ => {*rest}}", c) is not None,
         "compile::VMBuilder::build": lambda c: c == "Prog::new(self.prog,self.n_saves)",
     }
@@ -217,6 +216,38 @@ def builder_helpers(run, ctx):
         n += 1
         if not pred(c):
             run.violation(fam, label, name, H.where(fn), "%s does not have its defining shape (operand roles of the patch helpers must match what the VM takes/pushes): %s" % (name, c[:200]))
+    # set_split_target(pc, target, second): the second operand iff `second` -- whatever the arm / guard layout
+    fn = S.get_fn(run, ctx, "compile::VMBuilder::set_split_target", fam, label)
+    if fn is not None:
+        n += 1
+        ps = fn["params"]
+        SEC = next((p.get("name") for p in ps if (p.get("ty") or "") == "bool"), None)
+        us = [p.get("name") for p in ps if (p.get("ty") or "") == "usize"]
+        ok = SEC is not None and len(us) == 2
+        seen = set()
+        if ok:
+            PC, TGT = us
+            for p in S.paths_of(fn["body"]):
+                arms_ = [ev for ev in p.events if ev.kind == "arm" and (ev.b or "").startswith("Insn::Split(")]
+                asg = [ev for ev in p.events if ev.kind == "assign"]
+                if not arms_:
+                    ok = ok and not asg
+                    continue
+                a_ = arms_[-1]
+                m = re.match(r"^Insn::Split\((\w+),(\w+)\)$", a_.b)
+                sec = [ev.b for ev in p.events if ev.kind == "cond" and ev.a == SEC]
+                if not sec:
+                    # reached only when an earlier Split arm's *pattern* did not match: not a Split at all
+                    continue
+                if not m or a_.a != "self.prog[%s]" % PC or len(asg) != 1:
+                    ok = False
+                    continue
+                want = m.group(2) if sec[-1] else m.group(1)
+                ok = ok and want != "_" and asg[0].a == want and asg[0].b == "=" and asg[0].c == TGT
+                seen.add(bool(sec[-1]))
+            ok = ok and seen == {True, False}
+        if not ok:
+            run.violation(fam, label, "compile::VMBuilder::set_split_target", H.where(fn), "compile::VMBuilder::set_split_target does not have its defining shape (operand roles of the patch helpers must match what the VM takes/pushes): the target must be written to the second operand of Split exactly when `second` is set, else to the first: %s" % H.canon(fn["body"])[:200])
     fn = S.get_fn(run, ctx, "compile::VMBuilder::new", fam, label)
     if fn is not None:
         c = H.canon(fn["body"])
@@ -664,8 +695,12 @@ def atomic_and_group_arms(run, ctx):
                 run.ok(fam, fam2, H.where(fnn), 1, "negative: Split(+1, after Fail); body; FailNegativeLookAround")
     fi = S.get_fn(run, ctx, "compile::Compiler::compile_lookaround_inner", fam, fam2)
     if fi is not None:
-        ps_ = [p.get("name") for p in fi["params"]]
-        INNER, LA = ps_[1], ps_[2]
+        # parameters by type, not by position
+        INNER = next((p.get("name") for p in fi["params"] if "Info" in (p.get("ty") or "")), None)
+        LA = next((p.get("name") for p in fi["params"] if "LookAround" in (p.get("ty") or "")), None)
+        if INNER is None or LA is None:
+            run.violation(fam, fam2, "inner/anchor-missing", H.where(fi), "anchor-missing: compile_lookaround_inner should take the body's Info and the LookAround kind")
+            return
         n2 = 0
         for p in S.paths_of(fi["body"]):
             if not feasible(p):
@@ -908,14 +943,29 @@ def visit_delegation_gate(run, ctx):
         return
     ps = [p.get("name") for p in fn["params"]]
     INFO, HARD = ps[1], ps[2]
+    # path-based: a path of visit hands the whole sub-expression to compile_delegate (and returns its result) exactly
+    # when both `hard` and `info.hard` were tested false on it; no path reaches the match on the expression kind
+    # with both false
     st = fn["body"].get("stmts", [])
     first = H.peel(st[0]["e"]) if st and st[0]["k"] in ("ExprStmt", "Semi") else None
-    ok = False
-    if first is not None and first.get("k") == "If":
-        cnd = H.canon(first["cond"])
-        th = H.canon(first["then"])
-        if cnd in ("(!%s && !%s.hard)" % (HARD, INFO), "(!%s.hard && !%s)" % (INFO, HARD)) and th == "return self.compile_delegate(%s)" % INFO:
-            ok = True
+    ok = first is not None and first.get("k") == "If"
+    ndel = nother = 0
+    if ok:
+        for p in S.paths_of(first):
+            tr = {}
+            for ev in p.events:
+                if ev.kind == "cond" and ev.a in (HARD, "%s.hard" % INFO):
+                    tr.setdefault(ev.a, ev.b)
+            both_false = tr.get(HARD) is False and tr.get("%s.hard" % INFO) is False
+            dele = p.exit == "return" and p.val == "self.compile_delegate(%s)" % INFO
+            if dele:
+                ndel += 1
+                ok = ok and both_false
+            else:
+                nother += 1
+                ok = ok and p.exit == "fall" and (tr.get(HARD) is True or tr.get("%s.hard" % INFO) is True)
+                ok = ok and not any(ev.kind == "call" for ev in p.events)
+        ok = ok and ndel >= 1 and nother >= 1
     if not ok:
         run.violation(fam, label, "gate", H.where(fn), "Compiler::visit must start by delegating the whole sub-expression exactly when the context is not hard and the sub-expression is not hard")
     else:
@@ -944,7 +994,9 @@ def compile_alt(run, ctx):
             run.violation(fam, label, key, w, "compile_alt: %s; shape `%s` not found" % (what, pat))
         return m
     need("for {i} in 0..%s {" % COUNT, "order", "alternatives must be emitted in index order 0..count (priority = textual order)")
-    m = need(["let {hn} = ({i} != (%s - 1));" % COUNT, "let {hn} = ((%s - 1) != {i});" % COUNT], "has-next", "every alternative except the last needs a fallback")
+    # for i in 0..count: "i is not the last index" has these equivalent spellings
+    m = need(["let {hn} = ({i} != (%s - 1));" % COUNT, "let {hn} = ((%s - 1) != {i});" % COUNT, "let {hn} = ((1 + {i}) < %s);" % COUNT,
+              "let {hn} = ({i} < (%s - 1));" % COUNT, "let {hn} = ((1 + {i}) != %s);" % COUNT], "has-next", "every alternative except the last needs a fallback")
     HN = m.group("hn") if m else "has_next"
     need("let {pc} = self.b.pc(); if %s {self.b.add(Insn::Split((1 + {pc}),MAX))};" % HN, "split", "a non-last alternative starts with Split(next instruction, <patched later>)")
     need("if (MAX != {last}) {self.b.set_split_target({last},{pc},true)}; {last} = {pc};", "chain", "the previous alternative's Split falls back (second operand) to the start of this alternative")
@@ -962,13 +1014,43 @@ def literal_fast_path(run, ctx):
     if fn is not None:
         c = H.canon(H.peel(fn["body"]))
         n += 1
-        if not H.pat_match("match self.expr {Expr::Literal{casei:{ci},..} => !{ci}; Expr::Concat(_) => self.children.iter().all(|{c}| {c}.is_literal()); _ => false}", c):
-            run.violation(fam, label, "is_literal", H.where(fn), "Info::is_literal must hold exactly for case-sensitive literals and concatenations of them (a case-insensitive literal compared byte-wise would not fold case), found %s" % c)
+        okl = {"lit": 0, "concat": 0, "other": 0}
+        badl = None
+        for p in S.paths_of(fn["body"]):
+            v = S.ret_value(p)
+            arms_ = [ev for ev in p.events if ev.kind == "arm" and ev.a == "self.expr"]
+            if v is None or not arms_:
+                continue
+            pat = arms_[-1].b or ""
+            if pat.startswith("Expr::Literal{"):
+                m = re.search(r"casei:(\w+)", pat)
+                ci = m.group(1) if m else None
+                tr = [ev.b for ev in p.events if ev.kind == "cond" and ev.a == ci]
+                good = ci is not None and (v == "!%s" % ci or (tr and v == ("false" if tr[-1] else "true")))
+                if not good:
+                    badl = "a literal is byte-comparable exactly when it is case-sensitive (found %s)" % v
+                okl["lit"] += 1
+            elif pat.startswith("Expr::Concat("):
+                fails = [ev for ev in p.events if ev.kind == "cond" and H.pat_match("{c}.is_literal()", ev.a or "") and ev.b is False]
+                over = [ev for ev in p.events if ev.kind in ("for-iter", "for-skip") and (ev.b or "") in ("self.children", "self.children.iter()")]
+                if H.pat_match("self.children.iter().all(|{c}| {c}.is_literal())", v):
+                    pass
+                elif over and ((v == "false" and fails) or (v == "true" and not fails)):
+                    pass
+                else:
+                    badl = "a concatenation is a literal exactly when every child is (found %s)" % v
+                okl["concat"] += 1
+            else:
+                if v != "false":
+                    badl = "nothing but case-sensitive literals and their concatenations may bypass the automata engine (found %s for %s)" % (v, pat)
+                okl["other"] += 1
+        if badl or min(okl.values()) < 1:
+            run.violation(fam, label, "is_literal", H.where(fn), "Info::is_literal must hold exactly for case-sensitive literals and concatenations of them (a case-insensitive literal compared byte-wise would not fold case): %s; found %s" % (badl or okl, c))
     fn = S.get_fn(run, ctx, "analyze::Info::push_literal", fam, label)
     if fn is not None:
         c = H.canon(H.peel(fn["body"]))
         n += 1
-        if not H.pat_match("match self.expr {Expr::Literal{val:{v},..} => {b}.push_str({v}); Expr::Concat(_) => for {c} in self.children {{c}.push_literal({b})}; _ => {*p}}", c):
+        if not H.pat_match("match self.expr {Expr::Concat(_) => for {c} in self.children {{c}.push_literal({b})}; Expr::Literal{val:{v},..} => {b}.push_str({v}); _ => {*p}}", c):
             run.violation(fam, label, "push_literal", H.where(fn), "Info::push_literal must append the literal text of the node and of its children in order, found %s" % c[:160])
     fn = S.get_fn(run, ctx, "compile::Compiler::compile_delegate", fam, label)
     if fn is not None:
@@ -982,8 +1064,48 @@ def literal_fast_path(run, ctx):
         c = H.canon(fn["body"])
         I = fn["params"][1].get("name")
         n += 1
-        want = ("if %s.is_empty() {return Ok(())}; if %s.iter().all(|{e}| {e}.is_literal()) {let {v} = String::new(); for {i} in %s {{i}.push_literal({v})}; self.b.add(Insn::Lit({v})); return Ok(())}; "
-                "let {db} = DelegateBuilder::new(); for {j} in %s {{db}.push({j})}; let {d} = {db}.build(self.options)?; self.b.add({d}); Ok(())") % (I, I, I, I)
-        if not H.pat_match(want, c):
-            run.violation(fam, label, "compile_delegates", H.where(fn), "compile_delegates must merge an all-literal run into one Lit and otherwise push every Info of the run, in order, into one delegate built from the user's options, found %s" % c[:240])
+        kinds = {"empty": 0, "literal": 0, "delegate": 0}
+        bad = None
+        for p in S.paths_of(fn["body"]):
+            if p.exit == "try-err":
+                continue
+            sm = S.Summary(p)
+            tr = {}
+            for t, v, _, _ in sm.conds:
+                tr.setdefault(t, v)
+            empty = tr.get("%s.is_empty()" % I)
+            alllit = next((v for t, v in tr.items() if H.pat_match("%s.iter().all(|{e}| {e}.is_literal())" % I, t)), None)
+            adds = [x for x in sm.calls if x.startswith("self.b.add(")]
+            iters = [ev for ev in p.events if ev.kind == "for-iter" and (ev.b or "") in (I, "%s.iter()" % I)]
+            skips = [ev for ev in p.events if ev.kind == "for-skip" and (ev.b or "") in (I, "%s.iter()" % I)]
+            if empty:
+                if adds or sm.val != "Ok(())":
+                    bad = "an empty run must emit nothing"
+                kinds["empty"] += 1
+                continue
+            if empty is None:
+                bad = "the empty run is not tested first"
+                continue
+            if alllit:
+                lit = [x for x in sm.calls if H.pat_match("{i}.push_literal({v})", x)]
+                if skips and not iters:
+                    continue        # zero-iteration variant of the loop: excluded by !is_empty()
+                mm = H.pat_match("{i}.push_literal({v})", lit[0]) if lit else None
+                if not iters or not mm or adds != ["self.b.add(Insn::Lit(%s))" % mm.group("v")] or any("DelegateBuilder" in x for x in sm.calls) or sm.val != "Ok(())":
+                    bad = "an all-literal run must be merged into one Lit of the literals' text in order (found %s)" % adds
+                kinds["literal"] += 1
+                continue
+            if alllit is None:
+                bad = "the all-literal test is missing"
+                continue
+            if skips and not iters:
+                continue
+            news = [x for x in sm.calls if x == "DelegateBuilder::new()"]
+            pushes = [x for x in sm.calls if H.pat_match("{db}.push({j})", x)]
+            builds = [x for x in sm.calls if H.pat_match("{db}.build(self.options)", x)]
+            if len(news) != 1 or not iters or not pushes or len(builds) != 1 or len(adds) != 1 or builds[0] not in adds[0] or sm.val != "Ok(())":
+                bad = "a run that is not all literals must be pushed, in order, into one DelegateBuilder built with the user's options and emitted (found %s)" % [x for x in sm.calls if "elegate" in x or x.startswith("self.b")][:6]
+            kinds["delegate"] += 1
+        if bad or min(kinds.values()) < 1:
+            run.violation(fam, label, "compile_delegates", H.where(fn), "compile_delegates must merge an all-literal run into one Lit and otherwise push every Info of the run, in order, into one delegate built from the user's options: %s; found %s" % (bad or "missing outcome %s" % kinds, c[:200]))
     run.ok(fam, label, "src/compile.rs", n, "byte-wise Lit only for case-sensitive literals; everything else goes through DelegateBuilder in order")
